@@ -403,6 +403,10 @@ impl SchemaConverter {
                         } else {
                             "any".to_string()
                         };
+                        // `A | B[]` and `A?[]` would bind `[]` to the last member only.
+                        if item_type.contains(" | ") || item_type.ends_with('?') {
+                            return format!("({})[]", item_type);
+                        }
                         return format!("{}[]", item_type);
                     }
                     "object" => {
